@@ -607,6 +607,7 @@ class Exec:
             if not isinstance(node.target, ast.Name):
                 raise Unsupported("range loop target")
             for args, s2 in self.ev_list(it.args, st):
+                args = [self.co(a_, "int", s2, "range-bound") for a_ in args]
                 if len(args) == 1:
                     a, b, c = VInt(0), args[0], VInt(1)
                 elif len(args) == 2:
